@@ -63,7 +63,13 @@ def model_apply(state, op):
         s.pop(n, None)
         return None, s
     if k == "read":
-        return s.get(n), s
+        v = s.get(n)
+        if v is not None and v.startswith(b"ref: "):
+            v = s.get(v[5:])
+        return v, s
+    if k == "set_symbolic_ref":
+        s[n] = b"ref: " + op["target"]
+        return None, s
     if k in ("pack_refs", "noop"):
         return None, s
     raise ValueError(k)
@@ -94,7 +100,7 @@ def linearizable(initial, ops, final):
                     return True
                 continue
             res, ns = model_apply(state, op)
-            if op["kind"] in ("set", "delete", "pack_refs", "noop") or res == op["result"]:
+            if op["kind"] in ("set", "delete", "pack_refs", "noop", "set_symbolic_ref") or res == op["result"]:
                 if rec(done | {i}, ns):
                     return True
         return False
@@ -187,6 +193,8 @@ def make_ops(spec, initial, counter):
             ops.append({"kind": "set", "name": OTHER, "new": new})
         elif s == "list":
             ops.append({"kind": "list", "name": None})
+        elif s == "symref-other":
+            ops.append({"kind": "set_symbolic_ref", "name": OTHER, "target": R})
         else:
             raise ValueError(s)
     return ops
@@ -216,6 +224,9 @@ def do_op(refs, op):
             return None
     if k == "list":
         return dict(refs.as_dict())
+    if k == "set_symbolic_ref":
+        refs.set_symbolic_ref(op["name"], op["target"])
+        return None
     raise ValueError(k)
 
 
@@ -228,7 +239,7 @@ def run_refs(case):
     initial_spec = {}
     if case["init"] != "absent":
         initial_spec[R] = (val(0xA0), case["init"])
-    initial_spec[OTHER] = (val(0xB0), case.get("init_other", "packed"))
+    initial_spec[OTHER] = (val(0xB0) if not case.get("other_same_value") else val(0xA0), case.get("init_other", "packed"))
     initial = {n: v for n, (v, w) in initial_spec.items()}
     viol, stats = [], {"schedules": 0, "inconclusive_runs": 0, "histories_checked": 0}
     runno = [0]
@@ -286,6 +297,9 @@ def run_refs(case):
                 run.final[nm] = fin[nm]
             except KeyError:
                 pass
+        for nm, tgt in fin.get_symrefs().items():
+            if nm in (R, OTHER):
+                run.final[nm] = b"ref: " + tgt       # the model keeps symbolic refs as such: packing must not turn one into a direct ref
         return run
 
     for kind, prefix, run in sched.explore(make_run, case["max_runs"], case.get("bound", 2), rng):
@@ -478,6 +492,11 @@ def main(ctx):
         for init in inits:
             cases.append({"kind": "refs", "seed": "%d/%s/%s" % (ctx.seed, acts, init), "actors": acts, "init": init,
                           "max_runs": ctx.budget(250, 4000), "bound": 2 if not ctx.thorough else 3})
+    for acts in ([["pack"], ["symref-other"]], [["pack"], ["symref-other", "read-other"]], [["pack", "read-other"], ["symref-other"]]):
+        for init in ("loose", "both", "packed"):
+            for io in ("loose", "both"):
+                cases.append({"kind": "refs", "seed": "%d/sym/%s/%s/%s" % (ctx.seed, acts, init, io), "actors": acts, "init": init, "init_other": io,
+                              "other_same_value": True, "max_runs": ctx.budget(300, 4000), "bound": 2 if not ctx.thorough else 3})
     triples = [[["cas"], ["cas"], ["cas"]], [["pack"], ["set"], ["read"]], [["rm"], ["pack"], ["read"]], [["add"], ["add"], ["pack"]], [["cas"], ["pack"], ["rm"]]]
     for acts in triples:
         for init in ("loose", "both"):
